@@ -204,6 +204,21 @@ def run(ctx, eng):
         ctx.ob('ATOM.STR', fi.qual, 'raise after allocation', True,
                'nothing can raise after the promised stream is allocated',
                node=fi.node)
+    # the post-append size assertion of _prepare_for_sending (treated as a
+    # precondition of the call): PUSH_PROMISE frames have no size bound here
+    from . import flow
+    unb = None
+    for p in normal:
+        for e in cm.calls_to(p, '_prepare_for_sending'):
+            if cm.calls_to(p, '_begin_new_stream') and \
+                    not flow.emit_cannot_fail(p, e):
+                unb = e
+    ctx.ob('ATOM.STR', fi.qual,
+           'raise after allocation|_prepare_for_sending', unb is None,
+           'the frames handed to _prepare_for_sending are not of fixed size '
+           'and nothing bounds them: its post-append assertion can fail '
+           'after the promised stream was allocated',
+           node=unb.node if unb is not None else fi.node)
     # ------------------------------------------------ receive side
     fi = eng.m.func(H + '_receive_push_promise_frame')
     paths = eng.I.run(fi)
